@@ -87,6 +87,12 @@ type Req struct {
 	// again (a retry loop does that); Method, URL and Header of this Req are then those of
 	// that step.
 	SameObj int `json:"same_obj,omitempty"`
+	// DialVia: the request is built like a reverse proxy's: URL.Host is this address while
+	// Request.Host carries the authority of URL (the target URI is still URL).
+	DialVia string `json:"dial_via,omitempty"`
+	// OpaqueForm: the http.Request spells its target in URL.Opaque: 1 = the path
+	// ("/p%2Fq"), 2 = "//authority/path" (the target URI is still URL).
+	OpaqueForm int `json:"opaque_form,omitempty"`
 	// BodyLen > 0: the request carries a body of that many bytes (known length).
 	BodyLen int `json:"body_len,omitempty"`
 	// EmptyMethod: the request is sent with Method "" (which net/http defines as GET).
@@ -110,6 +116,8 @@ type Reply struct {
 	// RespReqWithout: the upstream is a middleware that forwards a rewritten copy of the request
 	// (without this header field) and, like net/http, reports that copy in Response.Request.
 	RespReqWithout string `json:"resp_req_without,omitempty"`
+	// NilHeader: the upstream hands back a response whose Header map is nil (no fields, no token).
+	NilHeader bool `json:"nil_header,omitempty"`
 	// IgnoreCtx: the origin answers whatever happens to the request's context (an upstream that
 	// does not watch the context, or whose answer was complete just before the context ended).
 	IgnoreCtx bool `json:"ignore_ctx,omitempty"`
